@@ -244,7 +244,7 @@ func init() {
 	}, Seqs: [][]string{{"h1", "h2", "h3"}}, Sample: 10000}
 	c01A.Valid = func(v []int) bool {
 		s := c01A
-		if !trailingAbsentC01(s, v, "h1", "h2", "h3") {
+		if !trailingAbsent(s, v, "h1", "h2", "h3") {
 			return false
 		}
 		if v[s.idx("h1")] == 0 && v[s.idx("pos")] != 0 {
@@ -315,7 +315,7 @@ func init() {
 		return c01Run(in)
 	}
 	addCheck(&Check{ID: "C01", Level: "exploration",
-		Rule: "two complete products on fresh simulated worlds: (A) content: all sequences of 0-2 (thorough 0-3) extension headers over an 18-shape alphabet (compact/odd-case/repeated names, empty value, %, quotes, separators, UTF-8, bytes >= 0x80, 16 KiB value) x position x 7 body classes (incl. NUL/CR/LF soup, SIP-like body, 4097 B, 60 KiB of all byte values) x Content-Length spelling x {request to backend, response, request by Route over TCP}; (B) paths: {backend, Route, static route, response by Via} x arrival UDP/TCP x departure UDP/TCP x received/must-record-route/keep-next-hop x 14 Request-URI forms x methods / status codes x header x body; the emission is read by the independent reader; non-trivial = the message was relayed",
+		Rule:   "two complete products on fresh simulated worlds: (A) content: all sequences of 0-2 (thorough 0-3) extension headers over an 18-shape alphabet (compact/odd-case/repeated names, empty value, %, quotes, separators, UTF-8, bytes >= 0x80, 16 KiB value) x position x 7 body classes (incl. NUL/CR/LF soup, SIP-like body, 4097 B, 60 KiB of all byte values) x Content-Length spelling x {request to backend, response, request by Route over TCP}; (B) paths: {backend, Route, static route, response by Via} x arrival UDP/TCP x departure UDP/TCP x received/must-record-route/keep-next-hop x 14 Request-URI forms x methods / status codes x header x body; the emission is read by the independent reader; non-trivial = the message was relayed",
 		Assume: []string{"well-formed messages of the stated domain (CRLF, single blanks, explicit Content-Length, no folding)"},
 		Run:    func(c *Ctx) { c01A.Run(c); c01B.Run(c) },
 		Replay: func(c *Ctx, raw json.RawMessage) string {
@@ -329,16 +329,4 @@ func init() {
 			return c01B.Replay(raw)
 		},
 	})
-}
-
-func trailingAbsentC01(s *EnumSpec, v []int, names ...string) bool {
-	seenAbsent := false
-	for _, n := range names {
-		if v[s.idx(n)] == 0 {
-			seenAbsent = true
-		} else if seenAbsent {
-			return false
-		}
-	}
-	return true
 }
